@@ -17,9 +17,15 @@ type litGen struct {
 	faultFn func(lt *TypeRef, def *TypeDef, fl uint8) bool
 	// deviation knobs: emit spec-valid literals the library is known to reject
 	// (integers beyond int64 for Float/ID, DESIGN §7 R8d); hit records that one was emitted.
-	bigNum    bool
-	hitBigNum bool
-	hitCustom bool // an arbitrary custom-scalar literal that does not convert (huge int / 1e999)
+	bigNum        bool
+	hitBigNum     bool
+	hitCustom     bool // an arbitrary custom-scalar literal that does not convert (huge int / 1e999)
+	hitNestedVar  bool // a variable nested inside a list / object literal
+	hitCustomVar  bool // a variable nested inside a custom-scalar literal
+	nest          int  // nesting inside typed list / input-object literals
+	noNestedHuge  bool // do not put unconvertible custom-scalar literals inside typed literals
+	hitNestedHuge bool
+	varBoost      bool // use variables wherever possible (fault injection at variable sites)
 }
 
 const (
@@ -60,7 +66,10 @@ func (g *litGen) value(t *TypeRef, depth int, fl uint8) {
 	if g.faultFn != nil && g.faultFn(t, def, fl) {
 		return
 	}
-	if g.varFn != nil && fl&flConst == 0 && r.Chance(1, 5) && g.varFn(t, fl) {
+	if g.varFn != nil && fl&flConst == 0 && (r.Chance(1, 5) || g.varBoost) && g.varFn(t, fl) {
+		if depth > 0 {
+			g.hitNestedVar = true
+		}
 		return
 	}
 	if !t.NonNull && fl&(flNoNull|flOneOf) == 0 && r.Chance(1, 10) {
@@ -86,6 +95,7 @@ func (g *litGen) value(t *TypeRef, depth int, fl uint8) {
 			n = r.Intn(2)
 		}
 		g.b = append(g.b, '[')
+		g.nest++
 		for i := 0; i < n; i++ {
 			if i > 0 {
 				if r.Bool() {
@@ -97,6 +107,7 @@ func (g *litGen) value(t *TypeRef, depth int, fl uint8) {
 			sub := flNoCoerce | (fl & flConst)
 			g.value(t.Elem, depth+1, sub)
 		}
+		g.nest--
 		g.b = append(g.b, ']')
 		return
 	}
@@ -106,6 +117,9 @@ func (g *litGen) value(t *TypeRef, depth int, fl uint8) {
 // flNoListTop is internal: used by the single-value coercion path (an arbitrary custom-scalar
 // literal must not be a list there, because a list literal in a list position is the list itself).
 const flNoListTop uint8 = 1 << 7
+
+// flInCustom: the position is inside a custom-scalar literal (no expected type for validators).
+const flInCustom uint8 = 1 << 5
 
 func (g *litGen) named(t *TypeRef, def *TypeDef, depth int, fl uint8) {
 	r := g.r
@@ -169,6 +183,10 @@ func (g *litGen) anyLit(t *TypeRef, depth int, fl uint8, top bool) {
 	if top && fl&flNoListTop != 0 && k >= 6 && k < 8 {
 		k = 9
 	}
+	if !top && g.varFn != nil && fl&flConst == 0 && r.Chance(1, 8) && g.varFn(&TypeRef{Name: t.Base()}, flInCustom) {
+		g.hitCustomVar = true
+		return
+	}
 	switch {
 	case k < 6 || depth > 3:
 		for {
@@ -177,6 +195,12 @@ func (g *litGen) anyLit(t *TypeRef, depth int, fl uint8, top bool) {
 				continue
 			}
 			if x == "99999999999999999999" || x == "1e999" || x == "-1E999" {
+				if g.nest > 0 {
+					if g.noNestedHuge {
+						continue
+					}
+					g.hitNestedHuge = true
+				}
 				g.hitCustom = true
 			}
 			g.b = append(g.b, x...)
@@ -212,6 +236,8 @@ func (g *litGen) object(def *TypeDef, depth int, fl uint8) {
 	r := g.r
 	sub := fl & flConst
 	g.b = append(g.b, '{')
+	g.nest++
+	defer func() { g.nest-- }()
 	if def.OneOf {
 		if len(def.Fields) > 0 {
 			f := rng.Pick(r, def.Fields)
